@@ -94,6 +94,12 @@ func Dump(t interface{}, format uint8) ([]byte, error) {
 
 // DumpIndent stores the interface as a dsd formatted data structure with indentation, if available.
 func DumpIndent(t interface{}, format uint8, indent string) ([]byte, error) {
+	// Resolve the AUTO format, so that the identifier names the format that is actually used.
+	format, ok := ValidateSerializationFormat(format)
+	if !ok {
+		return nil, ErrIncompatibleFormat
+	}
+
 	data, err := dumpWithoutIdentifier(t, format, indent)
 	if err != nil {
 		return nil, err
